@@ -330,11 +330,27 @@ def a3(run, project):
         anc = getattr(anc, "_parent", None)
     run.ob("A3", not modal, "overrun skip is performed in both modes", "the skip depends on abort_on_error",
            module=mod, node=r, func="SizeConstraint.bytes_parsed", construct="consume_bytes mode")
-    cb = mod.functions().get("consume_bytes")
+    # an inconsistency that is only anticipated (a size read that cannot fit) has consumed nothing beyond the emitted size
+    # field: no byte request on any path to the anticipated error (else those bytes are neither emitted nor remaining)
+    from .. import paths
+    n_ant = 0
+    for pa in paths.summarise(mod, f):
+        v = pa.value
+        if pa.end == "raise" and isinstance(v, ast.Call) and call_name(v) == "AnticipatedSizeConstraintExceededError":
+            n_ant += 1
+            eaten = [paths.text(e) if isinstance(e, ast.AST) else str(e) for k, e, _n in pa.effects if k in ("yieldfrom", "yield")]
+            run.ob("A3", not eaten, "anticipated overrun: nothing is consumed before the error is raised",
+                   f"AnticipatedSizeConstraintExceededError is raised after consuming input ({'; '.join(eaten)}): those bytes are "
+                   "neither emitted nor part of the remaining bytes", module=mod, node=pa.node or f,
+                   func="SizeConstraint.bytes_parsed", construct="raise AnticipatedSizeConstraintExceededError")
+    if not n_ant:
+        raise AnalysisError("C13: no path of bytes_parsed raises AnticipatedSizeConstraintExceededError")
+    from .shared import locate_function
+    cbm, cb = locate_function(project, mod, "consume_bytes")
     if cb is None:
         raise AnalysisError("C13: consume_bytes not found")
     loops = [n for n in cb.body if isinstance(n, ast.For)]
     ok = len(loops) == 1 and norm(loops[0].iter) == f"range({cb.args.args[0].arg})" and \
         sum(1 for n in ast.walk(loops[0]) if isinstance(n, ast.Yield)) == 1
     run.ob("A3", ok, "consume_bytes requests exactly `count` bytes", "consume_bytes no longer requests one byte per count",
-           module=mod, node=cb, func="consume_bytes", construct="consume_bytes loop")
+           module=cbm, node=cb, func="consume_bytes", construct="consume_bytes loop")
